@@ -7,12 +7,12 @@
     Nodes are addressed by their path from the root (slot indexes; Model.Reroot.paths lists
     them in the order of Tree.Nodes()); [vec_at t vt p] is the count vector the model holds at
     that node ([nth y v 0 = 1]: state y is reported there).
-    Proofs in Proofs/Parsimony{Vec,Hartigan,Reroot,Main,Ctx,Down,Final,Acctran,Tips,Unamb,Deltran,Inst}.v. *)
+    Proofs in Proofs/Parsimony{Vec,Hartigan,Reroot,Main,Ctx,Down,Final,Acctran,Tips,Unamb,Deltran,Inst,Embed,Site}.v. *)
 From Coq Require Import String ZArith QArith Bool Arith List.
 From GT Require Import Base.UTree Spec.Obs Spec.Parsimony Model.Reroot Model.Parsimony
      Proofs.ParsimonyVec Proofs.ParsimonyHartigan Proofs.ParsimonyReroot Proofs.ParsimonyMain
      Proofs.ParsimonyCtx Proofs.ParsimonyDown Proofs.ParsimonyFinal Proofs.ParsimonyAcctran
-     Proofs.ParsimonyTips Proofs.ParsimonyUnamb Proofs.ParsimonyDeltran Proofs.ParsimonyInst.
+     Proofs.ParsimonyTips Proofs.ParsimonyUnamb Proofs.ParsimonyDeltran Proofs.ParsimonyInst Proofs.ParsimonyEmbed Proofs.ParsimonySite.
 Import ListNotations.
 Local Close Scope Q_scope.
 Local Open Scope string_scope.
@@ -316,6 +316,46 @@ Theorem C12_asr_tips_unaltered :
       vec_at t (asr_vt aln t j a) q = Some v -> v = asr_tv aln j (uname x).
 Proof. exact asr_tips_unaltered. Qed.
 Print Assumptions C12_asr_tips_unaltered.
+
+(** * the passes do not depend on the alphabet: embedding the tip vectors into a larger
+      alphabet (injectively) embeds every vector and keeps the number of steps *)
+Theorem C12_alphabet_embedding :
+  forall pi k2, NoDup pi -> (forall j, In j pi -> j < k2) ->
+  forall tv1 tv2 skip a t,
+    wf t = true -> 2 <= degree t -> tips_emb pi k2 tv1 tv2 t ->
+    parsimony skip tv2 k2 a t = emb_res pi k2 (parsimony skip tv1 (length pi) a t).
+Proof. exact parsimony_embed. Qed.
+Print Assumptions C12_alphabet_embedding.
+
+(** * sequence reconstruction agrees site by site with single-character reconstruction:
+      for an alignment that is unambiguous at site j (A C G T -, either case), the sequence
+      variant at that site is the character variant run on the upper-cased characters of the
+      site ([site_map]), with the same number of steps and every vector embedded in the
+      six-letter alphabet ([site_pi]: the positions of the site's states) *)
+Theorem C12_site_by_site :
+  forall aln j t,
+    wf t = true -> 2 <= degree t ->
+    (forall n s, In (n, s) aln -> exists c, string_nth j s = Some c /\ In (upper c) unamb_chars) ->
+    (forall n, In n (leaves t) -> exists s, lookup n aln = Some s) ->
+    forall a,
+      parsimony true (asr_tipvec aln j) 6 a t
+      = emb_res (site_pi aln j) 6
+                (parsimony false (acr_tipvec (site_map aln j) (acr_alphabet (site_map aln j)))
+                           (length (acr_alphabet (site_map aln j))) a t).
+Proof. exact site_agreement. Qed.
+Print Assumptions C12_site_by_site.
+
+Theorem C12_site_steps_agree :
+  forall aln j t,
+    wf t = true -> 2 <= degree t ->
+    (forall n s, In (n, s) aln -> exists c, string_nth j s = Some c /\ In (upper c) unamb_chars) ->
+    (forall n, In n (leaves t) -> exists s, lookup n aln = Some s) ->
+    forall a,
+      snd (parsimony true (asr_tipvec aln j) 6 a t)
+      = snd (parsimony false (acr_tipvec (site_map aln j) (acr_alphabet (site_map aln j)))
+                       (length (acr_alphabet (site_map aln j))) a t).
+Proof. exact site_steps_agree. Qed.
+Print Assumptions C12_site_steps_agree.
 
 (** * the hypotheses are satisfiable: the hand-worked tree of acr/acr_test.go
       (t1,(t2,((t3,(t4,t5)),(t8,((t9,t10),((t12,t13),t15)))))) with states A/B: 4 steps *)
